@@ -241,9 +241,11 @@ C10_NoCampaignUnapplied ==
   (BothUp /\ Post.role \in {"PC", "C"} /\ (Pre.role \notin {"PC", "C"} \/ Post.term > Pre.term)
      /\ ~(A.name = "Deliver" /\ A.msg.term >= Post.term /\ A.msg.type \notin {"PreVoteResp", "TimeoutNow"}))
     => ~HasUnappliedConfChanges(Pre, PostD)
+\* the leader (re)tries the automatic leave whenever it has applied something; the attempt is
+\* only refused while a leadership transfer is pending
 C10_AutoLeave ==
   (BothUp /\ A.name \in {"Advance", "ApplyThread"} /\ Post.role = "L" /\ Pre.role = "L" /\ Post.cfg.autoLeave
-     /\ Post.transferee = 0 /\ HasPr(Post, I))
+     /\ Post.applied > Pre.applied /\ Pre.transferee = 0 /\ Post.transferee = 0 /\ HasPr(Post, I))
     => Post.pendingConf > Post.applied
 C10_JointNeedsBoth ==    \* elections and commits in a joint configuration need both majorities (also in C02/C06)
   BecameLeader => StrictMajorityOf(MapGet(hist.votesRecv, <<I, A.inc, Post.term>>, {}), VotersOut(Post.cfg))
